@@ -1249,3 +1249,137 @@ M("C12", "map-key", SEQ,
   "        event_id_to_otel_event_map[otel_event.event_id] = otel_event\n",
   "        event_id_to_otel_event_map[otel_event.event_type] = otel_event\n",
   "R12.2", "per-trace map keyed by type: spans of one type overwrite each other")
+M("C07", "prune-partial", CUG,
+  """    remove_nodes_without_path_back_to_loop(
+        set(graph.nodes), {root_event}, graph
+    )""",
+  """    remove_nodes_without_path_back_to_loop(
+        loop.break_events, {root_event}, graph
+    )""", "R7.7", "only the break events are pruning candidates")
+M("C13", "stale-yield", JDS,
+  """            for data in jsons:
+                for record in generate_records_from_compiled_jq(
+                    data, self.compiled_jq
+                ):
+                    try:
+                        yield OTelEvent(**record)
+                        self.events_pbar.update(1)
+                    except ValidationError as e:""",
+  """            for data in jsons:
+                otel_event = None
+                for record in generate_records_from_compiled_jq(
+                    data, self.compiled_jq
+                ):
+                    try:
+                        otel_event = OTelEvent(**record)
+                    except ValidationError as e:
+                        pass
+                    if otel_event is not None:
+                        yield otel_event
+                        self.events_pbar.update(1)
+                    try:
+                        pass
+                    except ValidationError as e:""", "R13.6",
+  "an invalid record re-emits the previous span")
+T("C13", "twin-yield-after", JDS,
+  """                    try:
+                        yield OTelEvent(**record)
+                        self.events_pbar.update(1)
+                    except ValidationError as e:""",
+  """                    otel_event = None
+                    try:
+                        otel_event = OTelEvent(**record)
+                    except ValidationError as e:
+                        pass
+                    if otel_event is not None:
+                        yield otel_event
+                        self.events_pbar.update(1)
+                    try:
+                        pass
+                    except ValidationError as e:""",
+  "span built in the try, yielded after it, variable reset per record")
+M("C05", "copy-no-subgraph", PG,
+  """                    event_types=event_node.event_types,
+                    sub_graph=event_node.sub_graph,""",
+  """                    event_types=event_node.event_types,""", "R5.7",
+  "copied loop node loses its body")
+TT("C04", "twin-helper", [
+    (EV, """            event.update_event_sets(
+                [
+                    eventSet.eventType
+                    for eventSet in eventSetList
+                    for _ in range(eventSet.count)
+                ]
+            )""",
+     """            event.update_event_sets(_expand(eventSetList))"""),
+    (EV, """def event_inputs_to_events(""",
+     """def _expand(eventSetList: list["EventSetCountInput"]) -> list[str]:
+    return [
+        eventSet.eventType
+        for eventSet in eventSetList
+        for _ in range(eventSet.count)
+    ]
+
+
+def event_inputs_to_events(""")],
+   "multiplicity expansion moved into a helper")
+T("C12", "twin-trailing-key", SQL,
+  "query.order_by(NodeModel.job_name, NodeModel.job_id).yield_per(",
+  "query.order_by(NodeModel.job_name, NodeModel.job_id, NodeModel.start_timestamp).yield_per(",
+  "extra trailing sort key")
+T("C14", "twin-enumerate", O2P,
+  """    file_no = 1
+    for pv_event_stream in pv_event_streams:
+        save_pv_event_stream_to_file(
+            job_name,
+            pv_event_stream,
+            output_file_directory,
+            file_no,
+            mapping_config,
+        )
+        file_no += 1""",
+  """    for file_no, pv_event_stream in enumerate(pv_event_streams, start=1):
+        save_pv_event_stream_to_file(
+            job_name,
+            pv_event_stream,
+            output_file_directory,
+            file_no,
+            mapping_config,
+        )""", "file counter through enumerate(start=1)")
+M("C16", "mul-1e-9", UT, "datetime.fromtimestamp(unix_nano / 1e9, tz=UTC)",
+  "datetime.fromtimestamp(unix_nano * 1e-9, tz=UTC)", "R16.3",
+  "multiplication by the inexact constant 1e-9 exceeds the 0.5 µs radius after 2038")
+TT("C11", "twin-helper-pred", [
+    (SQL, """                        (
+                            (NodeModel.start_timestamp <= time_window[1])
+                            & (NodeModel.start_timestamp >= time_window[0])
+                        )
+                        | (
+                            (NodeModel.end_timestamp <= time_window[1])
+                            & (NodeModel.end_timestamp >= time_window[0])
+                        )
+                    )
+                    > 0
+                )
+            )
+            stmt_2 = sa.delete(NodeModel)""",
+     """                        _in_window(time_window)
+                    )
+                    > 0
+                )
+            )
+            stmt_2 = sa.delete(NodeModel)"""),
+    (SQL, """def intialise_temp_table_for_root_nodes(""",
+     """def _in_window(time_window: tuple[int, int]):
+    lower, upper = time_window
+    return (
+        (NodeModel.start_timestamp <= upper)
+        & (NodeModel.start_timestamp >= lower)
+    ) | (
+        (NodeModel.end_timestamp <= upper)
+        & (NodeModel.end_timestamp >= lower)
+    )
+
+
+def intialise_temp_table_for_root_nodes(""")],
+   "window predicate factored into a helper with tuple unpacking")
